@@ -6,3 +6,5 @@ export GOFLAGS=-mod=mod GOPROXY=off GOSUMDB=off GOTOOLCHAIN=local GOWORK=off
 mkdir -p ../bin
 go build -o ../bin/psv ./cmd/psv
 echo "built $(cd .. && pwd)/bin/psv"
+# warm the Go build cache with the export data of /repo's dependencies (best effort)
+../bin/psv warm || true
